@@ -1,46 +1,129 @@
 import PySMT.Proofs.SimpMain
 import PySMT.Proofs.SimpPerm
+import PySMT.Proofs.SimpTotal
 /-!
 # The implementation's argument orders are covered
 
 `walk_and`/`walk_or` return `And(set)`/`Or(set)` and `walk_times` returns the product sorted by
 node id: the order of the arguments of these three results is a function of the run (set
 iteration order, creation order of nodes), not of the formula. `simpWithR tbl ρ` applies an
-arbitrary re-ordering `ρ` of the top-level `and`/`or`/`times` arguments after **every** rule
-application; the four components hold for every such `ρ`. With `ρ = id` this is `simpWith`.
+arbitrary re-ordering `ρ` of the top-level `and`/`or`/`times` arguments, or of the bound variables
+of a top-level quantifier (`walk_forall`/`walk_exists` return `ForAll(set, body)`), after **every**
+rule application; all components hold for every such `ρ`. With `ρ = id` this is `simpWith`.
+Not covered: the order of the (key, value) pairs of an array value (`FormulaManager.Array` sorts them
+by `id()`): there is no `eval`-invariance lemma for permuted pairs yet.
 -/
 namespace PySMT.Simplifier
 open PySMT PySMT.Simp
 
-/-- `g` is `r` with the arguments of its top node (an `and`, `or` or `times`) permuted -/
-def PermTop (r g : Term) : Prop :=
-  g = r ∨ ∃ (o : Op) (l₁ l₂ : List Term) (q : Payload),
-    (o = .and ∨ o = .or ∨ o = .times) ∧ r = .node o l₁ q ∧ g = .node o l₂ q ∧ l₁.Perm l₂
+/-! ## the order of bound variables does not matter -/
 
-theorem Res.perm {t : Term} {τ : Ty} {r g : Term} (h : Res t τ r) (hp : PermTop r g) : Res t τ g := by
-  rcases hp with rfl | ⟨o, l₁, l₂, q, ho, rfl, rfl, hperm⟩
-  · exact h
+theorem all_all_comm {α β} (l₁ : List α) (l₂ : List β) (f : α → β → Bool) :
+    (l₁.all fun a => l₂.all fun b => f a b) = (l₂.all fun b => l₁.all fun a => f a b) := by
+  rw [Bool.eq_iff_iff]
+  simp only [List.all_eq_true]
+  exact ⟨fun h b hb a ha => h a ha b hb, fun h a ha b hb => h b hb a ha⟩
+
+theorem any_any_comm {α β} (l₁ : List α) (l₂ : List β) (f : α → β → Bool) :
+    (l₁.any fun a => l₂.any fun b => f a b) = (l₂.any fun b => l₁.any fun a => f a b) := by
+  rw [Bool.eq_iff_iff]
+  simp only [List.any_eq_true]
+  exact ⟨fun ⟨a, ha, b, hb, h⟩ => ⟨b, hb, a, ha, h⟩, fun ⟨b, hb, a, ha, h⟩ => ⟨a, ha, b, hb, h⟩⟩
+
+theorem bind_comm (I : Interp) {x y : Sym} (hxy : x ≠ y) (v w : Val) :
+    (I.bind y v).bind x w = (I.bind x w).bind y v := by
+  simp only [Interp.bind]
+  congr 1
+  funext s
+  by_cases h1 : s = x
+  · subst h1; simp [hxy]
+  · by_cases h2 : s = y
+    · subst h2; simp [h1]
+    · simp [h1, h2]
+
+/-- **quantifier evaluation is invariant under permutation of the bound variables** (repeated
+variables included: swapping two equal neighbours is the identity, swapping two distinct ones
+commutes the two `bind`s) -/
+theorem quant_perm (all : Bool) (k : Interp → Bool) {vs vs' : List Sym} (h : vs.Perm vs') :
+    ∀ I : Interp, I.quant all vs k = I.quant all vs' k := by
+  induction h with
+  | nil => intro I; rfl
+  | cons x _ ih => intro I; simp only [Interp.quant, ih]
+  | swap x y l =>
+    intro I
+    by_cases hxy : x = y
+    · subst hxy; rfl
+    · simp only [Interp.quant]
+      have hd1 : ∀ v, (I.bind y v).dom = I.dom := fun _ => rfl
+      have hd2 : ∀ w, (I.bind x w).dom = I.dom := fun _ => rfl
+      cases all
+      · simp only [Bool.false_eq_true, if_false, hd1, hd2]
+        rw [any_any_comm]
+        simp only [bind_comm I hxy]
+      · simp only [if_true, hd1, hd2]
+        rw [all_all_comm]
+        simp only [bind_comm I hxy]
+  | trans _ _ ih1 ih2 => intro I; rw [ih1, ih2]
+
+/-! ## the re-orderings -/
+
+/-- `g` is `r` up to an order the implementation does not determine: the arguments of a top
+`and` / `or` / `times` node permuted (`And(set)`, `Or(set)`, product sorted by node id), or the bound
+variables of a top quantifier permuted (`ForAll(set, body)`) -/
+def PermTop (r g : Term) : Prop :=
+  g = r ∨
+  (∃ (o : Op) (l₁ l₂ : List Term) (q : Payload),
+    (o = .and ∨ o = .or ∨ o = .times) ∧ r = .node o l₁ q ∧ g = .node o l₂ q ∧ l₁.Perm l₂) ∨
+  (∃ (o : Op) (b : Term) (vs vs' : List Sym),
+    o.isQuantifier = true ∧ r = .node o [b] (.qvars vs) ∧ g = .node o [b] (.qvars vs') ∧ vs.Perm vs')
+
+/-- a re-ordering changes neither type, well-formedness, value, proviso nor free symbols -/
+theorem permTop_facts {τ : Ty} {r g : Term} (hwf : r.wf = true) (hty : r.typeOf = some τ) (hp : PermTop r g) :
+    g.typeOf = some τ ∧ g.wf = true ∧
+    (∀ I : Interp, I.WF → eval I g = eval I r ∧ div0 I g = div0 I r) ∧ (∀ s, s ∈ g.fv ↔ s ∈ r.fv) := by
+  rcases hp with rfl | ⟨o, l₁, l₂, q, ho, rfl, rfl, hperm⟩ | ⟨o, b, vs, vs', hq, rfl, rfl, hperm⟩
+  · exact ⟨hty, hwf, fun _ _ => ⟨rfl, rfl⟩, fun _ => Iff.rfl⟩
   · have hplain : o ≠ .symbol ∧ o ≠ .function ∧ o.isQuantifier = false ∧ o ≠ .div := by
       rcases ho with rfl | rfl | rfl <;> exact ⟨by simp, by simp, rfl, by simp⟩
-    have hty : (Term.node o l₂ q).typeOf = some τ := by
+    have hty' : (Term.node o l₂ q).typeOf = some τ := by
       rcases ho with rfl | rfl | rfl
-      · have := typeOf_and_iff.mp h.type
+      · have := typeOf_and_iff.mp hty
         exact typeOf_and_iff.mpr ⟨this.1, fun a ha => this.2 a (hperm.mem_iff.mpr ha)⟩
-      · have := typeOf_or_iff.mp h.type
+      · have := typeOf_or_iff.mp hty
         exact typeOf_or_iff.mpr ⟨this.1, fun a ha => this.2 a (hperm.mem_iff.mpr ha)⟩
-      · exact typeOf_perm_times hperm h.type
-    have hwf : (Term.node o l₂ q).wf = true := by
-      refine wf_mk' (fun a ha => wf_args h.wf a (hperm.mem_iff.mpr ha)) ?_ hty
-      rw [← hperm.length_eq]; exact wf_shape h.wf
-    refine ⟨hty, hwf, fun I hI hd => ?_, fun s hs => ?_⟩
-    · obtain ⟨e, d⟩ := h.sound I hI hd
-      refine ⟨?_, by rw [← div0_perm_plain I o hplain.2.2.1 hplain.2.2.2 q hperm]; exact d⟩
-      rw [← e]
-      rcases ho with rfl | rfl | rfl
-      · exact (eval_perm_and I _ _ q hperm).symm
-      · exact (eval_perm_or I _ _ q hperm).symm
-      · exact (eval_perm_times I hI hperm h.wf).symm
-    · exact h.fv s ((fv_perm_plain o hplain.1 hplain.2.1 hplain.2.2.1 q hperm s).mpr hs)
+      · exact typeOf_perm_times hperm hty
+    have hwf' : (Term.node o l₂ q).wf = true := by
+      refine wf_mk' (fun a ha => wf_args hwf a (hperm.mem_iff.mpr ha)) ?_ hty'
+      rw [← hperm.length_eq]; exact wf_shape hwf
+    refine ⟨hty', hwf', fun I hI => ⟨?_, (div0_perm_plain I o hplain.2.2.1 hplain.2.2.2 q hperm).symm⟩,
+      fun s => (fv_perm_plain o hplain.1 hplain.2.1 hplain.2.2.1 q hperm s).symm⟩
+    rcases ho with rfl | rfl | rfl
+    · exact (eval_perm_and I _ _ q hperm).symm
+    · exact (eval_perm_or I _ _ q hperm).symm
+    · exact (eval_perm_times I hI hperm hwf).symm
+  · have hty' : (Term.node o [b] (.qvars vs')).typeOf = some τ := by
+      rw [typeOf_node] at hty ⊢
+      cases o <;> simp [Op.isQuantifier] at hq
+      · rw [typeOfNode_forall_eq] at hty ⊢; exact hty
+      · rw [typeOfNode_exists_eq] at hty ⊢; exact hty
+    have hwf' : (Term.node o [b] (.qvars vs')).wf = true := by
+      refine wf_mk' (wf_args hwf) ?_ hty'
+      cases o <;> simp [Op.isQuantifier] at hq <;> rfl
+    refine ⟨hty', hwf', fun I _ => ⟨?_, ?_⟩, fun s => ?_⟩
+    · cases o <;> simp [Op.isQuantifier] at hq
+      · rw [eval_forall, eval_forall, quant_perm true _ hperm]
+      · rw [eval_exists, eval_exists, quant_perm false _ hperm]
+    · rw [div0_quant I o hq, div0_quant I o hq, quant_perm false _ hperm]
+    · rw [fv_node, fv_node]
+      cases o <;> simp [Op.isQuantifier] at hq <;>
+        simp only [List.mem_filter, List.contains_eq_mem, hperm.mem_iff]
+
+theorem Res.perm {t : Term} {τ : Ty} {r g : Term} (h : Res t τ r) (hp : PermTop r g) : Res t τ g := by
+  obtain ⟨f1, f2, f3, f4⟩ := permTop_facts h.wf h.type hp
+  refine ⟨f1, f2, fun I hI hd => ?_, fun I hI hT => ?_, fun s hs => h.fv s ((f4 s).mp hs)⟩
+  · obtain ⟨e, d⟩ := h.sound I hI hd
+    exact ⟨(f3 I hI).1.trans e, (f3 I hI).2.trans d⟩
+  · exact (f3 I hI).1.trans (h.total I hI hT)
 
 /-- bottom-up rule application with a re-ordering `ρ` after every rule -/
 def simpWithR (tbl : Op → Option Entry) (ρ : Term → Term) : Term → Term
@@ -55,14 +138,16 @@ theorem simpWithR_spec (tbl : Op → Option Entry) (hok : ∀ op e, tbl op = som
       ((simpWithR tbl ρ t).typeOf = some τ ∧ (simpWithR tbl ρ t).wf = true) ∧
       (∀ I : Interp, I.WF → div0 I t = false →
         eval I (simpWithR tbl ρ t) = eval I t ∧ div0 I (simpWithR tbl ρ t) = false) ∧
-      (∀ s ∈ (simpWithR tbl ρ t).fv, s ∈ t.fv)
+      (∀ s ∈ (simpWithR tbl ρ t).fv, s ∈ t.fv) ∧
+      (∀ I : Interp, I.WF → I.Tot → eval I (simpWithR tbl ρ t) = eval I t)
   | .node op args p => fun hwf hfrag τ hty => by
     obtain ⟨⟨e, he, hg⟩, hfa⟩ := inFragWith_node hfrag
     have hR := hok op e he
     have ih' : ∀ a ∈ args, ((simpWithR tbl ρ a).typeOf = a.typeOf ∧ (simpWithR tbl ρ a).wf = true) ∧
         (∀ I : Interp, I.WF → div0 I a = false →
           eval I (simpWithR tbl ρ a) = eval I a ∧ div0 I (simpWithR tbl ρ a) = false) ∧
-        (∀ s ∈ (simpWithR tbl ρ a).fv, s ∈ a.fv) := by
+        (∀ s ∈ (simpWithR tbl ρ a).fv, s ∈ a.fv) ∧
+        (∀ I : Interp, I.WF → I.Tot → eval I (simpWithR tbl ρ a) = eval I a) := by
       intro a ha
       obtain ⟨σ, hσ⟩ := wf_typeOf a (wf_args hwf a ha)
       have := simpWithR_spec tbl hok ρ hρ a (wf_args hwf a ha) (hfa a ha) σ hσ
@@ -85,14 +170,17 @@ theorem simpWithR_spec (tbl : Op → Option Entry) (hok : ∀ op e, tbl op = som
     -- the rule result is correct for the node with simplified arguments, and so is its re-ordering
     have hres : Res (.node op (args.map (simpWithR tbl ρ)) p) τ (e.rule p (args.map (simpWithR tbl ρ))) :=
       ⟨(hR.type p _ τ hwf' hty' hg').1, (hR.type p _ τ hwf' hty' hg').2, hR.sound p _ τ hwf' hty' hg',
-        hR.fv p _ τ hwf' hty' hg'⟩
+        hR.total p _ τ hwf' hty' hg', hR.fv p _ τ hwf' hty' hg'⟩
     have hres' := Res.perm hres (hρ _)
-    refine ⟨⟨hres'.type, hres'.wf⟩, ?_, ?_⟩
+    refine ⟨⟨hres'.type, hres'.wf⟩, ?_, ?_, ?_⟩
     · intro I hI hd
       have hc := node_congr op args p (simpWithR tbl ρ) hwf (fun a ha => (ih' a ha).2.1) I hI hd
       have hs := hres'.sound I hI hc.2
       exact ⟨hs.1.trans hc.1, hs.2⟩
     · intro s hs
-      exact fv_node_mono op args p (simpWithR tbl ρ) (fun a ha => (ih' a ha).2.2) s (hres'.fv s hs)
+      exact fv_node_mono op args p (simpWithR tbl ρ) (fun a ha => (ih' a ha).2.2.1) s (hres'.fv s hs)
+    · intro I hI hT
+      rw [hres'.total I hI hT]
+      exact node_congr_tot op args p (simpWithR tbl ρ) hwf (fun a ha => (ih' a ha).2.2.2) I hI hT
 
 end PySMT.Simplifier
